@@ -94,6 +94,7 @@ var filePool = []string{
 	"file://" + Prefix + "/lib/b.json", "file://" + Prefix + "/api/d.json",
 	// document URLs that extend one another as strings
 	"file://" + Prefix + "/api/a.json.bak", "file://" + Prefix + "/api/models", "file://" + Prefix + "/api/models-v2",
+	"file://" + Prefix + "/api/root.json2", "file://" + Prefix + "/api/root.json.bak",
 }
 var httpPool = []string{"http://h.test/x/f.json", "http://h.test/x/y/i.json", "https://s.test/j.json", "http://h.test/n.json", "http://h.test/x-y/o.json",
 	// same path on another host / port / scheme
